@@ -533,6 +533,7 @@ type Uninterp struct {
 }
 
 type SpecDB struct {
+	ConstGlobals map[string]bool
 	Uninterps map[string]*Uninterp
 	Axioms    []*Lemma
 	Abstracts map[string]*Abstract
@@ -552,7 +553,7 @@ var clauseKeywords = map[string]bool{"func": true, "iface": true, "extern": true
 	"lemma": true, "requires": true, "ensures": true, "raises": true, "noraise": true, "noreturn": true,
 	"modifies": true, "loop": true, "assert": true, "mode": true, "inline": true, "pure": true,
 	"outside-subset": true, "assume": true, "may-panic": true, "nosafe": true, "end": true, "bounded": true,
-	"abstract": true, "implements": true, "cut": true, "uninterp": true, "axiom": true, "logged": true}
+	"abstract": true, "implements": true, "cut": true, "uninterp": true, "axiom": true, "logged": true, "constglobal": true}
 
 func splitTags(s string) []string {
 	s = strings.Trim(s, "[] ")
@@ -561,7 +562,7 @@ func splitTags(s string) []string {
 }
 
 func loadSpecFiles(repo string) (*SpecDB, error) {
-	db := &SpecDB{Contracts: map[string]*Contract{}, Defines: map[string]*Define{}, Invs: map[string]*Define{}, Abstracts: map[string]*Abstract{}, Uninterps: map[string]*Uninterp{}}
+	db := &SpecDB{Contracts: map[string]*Contract{}, Defines: map[string]*Define{}, Invs: map[string]*Define{}, Abstracts: map[string]*Abstract{}, Uninterps: map[string]*Uninterp{}, ConstGlobals: map[string]bool{}}
 	files := []string{"contracts_verif.go", "pm/contracts_verif.go", "parse/contracts_verif.go"}
 	more, _ := filepath.Glob(filepath.Join(repo, "contracts_verif_*.go"))
 	for _, m := range more {
@@ -693,6 +694,11 @@ func (db *SpecDB) parseFile(fname, prefix, data string) {
 			db.Order = append(db.Order, key)
 		case "end":
 			cur = nil
+		case "constglobal":
+			for _, n := range strings.Fields(rest) {
+				db.ConstGlobals[prefix+n] = true
+			}
+			db.Assumes = append(db.Assumes, fmt.Sprintf("package variable(s) %s are assigned only during package initialisation (treated as constants; stores to them by verified code are rejected)", rest))
 		case "uninterp":
 			// uninterp name(p T, q U) R
 			lp := strings.Index(rest, "(")
